@@ -10,6 +10,8 @@ Templates: `vtexe` followed by k tokens; the i-th token is one of the 18 concret
             above the thorough budget
     long    every sequence of 4..6 (quick) / 5..6 (thorough) tokens over the 4-token pool {<n:str>, -x <n:int>,
             --flagx<n>, <out|n$tn.txt>}
+    extra   five further documented combinations (`<n:int?>`, `--rep <n+>`, `--rep <n:int*>`, `<out|n:image/png>`,
+            `<out|n:file?>`) alone, in pairs, and before / after every pool token
 For every template: `shell.define(template)`; the fields of the generated class are read through the public
 `pydra.utils.general.get_fields` and compared with the reference reader `vt.ref.template` (written from the docstring
 of shell.define and the tutorial): type, optional (?), multi (+, *), mandatory / default (=, ?, *, flags), is-output,
@@ -187,6 +189,11 @@ def items(thorough):
             out.append(("short4", [TYPED[(i + sum(t)) % len(TYPED)] if f == TYPED[0] else f for i, f in enumerate(t)]))
     for k in range(5 if thorough else 4, 7):
         out += [("long", list(t)) for t in itertools.product(RT.POOL4, repeat=k)]
+    extra = range(len(RT.POOL), len(RT.ALL_TOKENS))
+    out += [("extra", [x]) for x in extra] + [("extra", [x, y]) for x in extra for y in extra]
+    for x in extra:
+        for p in range(len(RT.POOL)):
+            out += [("extra", [x, p]), ("extra", [p, x])]
     return out
 
 
@@ -210,7 +217,8 @@ def run(ctx):
         "errors raised after the command was executed (output collection) are counted, not judged",
     ]
     ctx.coverage["bounds"] = dict(pool=RT.POOL, pool4=[RT.POOL[i] for i in RT.POOL4], short_max=n_short, long_max=6,
-                                  templates={t: sum(1 for k, _ in its if k == t) for t in ("short", "short4", "long")})
+                                  templates={t: sum(1 for k, _ in its if k == t) for t in ("short", "short4", "long", "extra")},
+                                  extra_tokens=RT.EXTRA)
     pmap(ctx, work, its, chunk=max(1, min(150, len(its) // (ctx.nproc * 8) or 1)))
     ctx.violations[:] = spread(ctx.violations)
 
